@@ -53,7 +53,8 @@ struct Cx {
 impl Cx {
     fn new() -> Cx {
         let program = drive::load_program(
-            "struct A {} struct Bs {} struct S<T> {} #[variance(Covariant)] struct C<T> {} struct P<T, U> {} trait Tr<T> {} trait Tr2<T> {}",
+            "struct A {} struct Bs {} struct S<T> {} #[variance(Covariant)] struct C<T> {} struct P<T, U> {} trait Tr<T> {} trait Tr2<T> {} \
+             fn f1<T>(); fn f2<T>(); extern type E1; extern type E2; closure k1(self,) {} closure k2(self,) {}",
         )
         .unwrap();
         let mut ids = BTreeMap::new();
@@ -101,6 +102,37 @@ impl Cx {
                 "ref" => TyKind::Ref(Mutability::Not, self.lt(&a[0]), self.ty(&a[1])).intern(i),
                 "refmut" => TyKind::Ref(Mutability::Mut, self.lt(&a[0]), self.ty(&a[1])).intern(i),
                 "array" => TyKind::Array(self.ty(&a[0]), self.ct(&a[1])).intern(i),
+                "f1" | "f2" => {
+                    let id = *self.program.fn_def_ids.iter().find(|(k, _)| k.to_string() == *n).unwrap().1;
+                    TyKind::FnDef(id, sub(a)).intern(i)
+                }
+                "E1" | "E2" => {
+                    let id = *self.program.foreign_ty_ids.iter().find(|(k, _)| k.to_string() == *n).unwrap().1;
+                    TyKind::Foreign(id).intern(i)
+                }
+                "k1" | "k2" => {
+                    let id = *self.program.closure_ids.iter().find(|(k, _)| k.to_string() == *n).unwrap().1;
+                    TyKind::Closure(id, sub(a)).intern(i)
+                }
+                // applied associated types and opaque types: only the id and the arguments matter to the filter
+                "AT1" | "AT2" => {
+                    let raw = chalk_integration::interner::RawId { index: if *n == "AT1" { 901 } else { 902 } };
+                    TyKind::AssociatedType(AssocTypeId(raw), sub(a)).intern(i)
+                }
+                "O1" | "O2" => {
+                    let raw = chalk_integration::interner::RawId { index: if *n == "O1" { 911 } else { 912 } };
+                    TyKind::OpaqueType(OpaqueTyId(raw), sub(a)).intern(i)
+                }
+                "fnptr_unsafe" | "fnptr_c" | "fnptr_var" => TyKind::Function(FnPointer {
+                    num_binders: 0,
+                    sig: FnSig {
+                        abi: if *n == "fnptr_c" { chalk_integration::interner::ChalkFnAbi::C } else { chalk_integration::interner::ChalkFnAbi::Rust },
+                        safety: if *n == "fnptr_unsafe" { Safety::Unsafe } else { Safety::Safe },
+                        variadic: *n == "fnptr_var",
+                    },
+                    substitution: FnSubst(sub(a)),
+                })
+                .intern(i),
                 "fnptr" => TyKind::Function(FnPointer {
                     num_binders: 0,
                     sig: FnSig { abi: chalk_integration::interner::ChalkFnAbi::Rust, safety: Safety::Safe, variadic: false },
@@ -188,9 +220,11 @@ fn type_set(thorough: bool) -> Vec<X> {
         X::Inf(0),
         X::Ph(0),
         X::App("tuple", vec![]),
+        X::App("E1", vec![]),
+        X::App("E2", vec![]),
     ];
     let mut v = leaves.clone();
-    for u in ["S", "C", "slice", "ptrc", "ptrm"] {
+    for u in ["S", "C", "slice", "ptrc", "ptrm", "f1", "f2", "k1", "k2", "AT1", "AT2", "O1", "O2"] {
         for l in &leaves {
             v.push(X::App(u, vec![l.clone()]));
         }
@@ -206,6 +240,9 @@ fn type_set(thorough: bool) -> Vec<X> {
         }
         v.push(X::App("tuple", vec![l.clone()]));
         v.push(X::App("fnptr", vec![l.clone()]));
+        v.push(X::App("fnptr_unsafe", vec![l.clone()]));
+        v.push(X::App("fnptr_c", vec![l.clone()]));
+        v.push(X::App("fnptr_var", vec![l.clone()]));
         for r in &few {
             v.push(X::App("tuple", vec![l.clone(), r.clone()]));
             v.push(X::App("P", vec![l.clone(), r.clone()]));
@@ -267,7 +304,9 @@ pub fn run_c18(rep: &Report) -> i32 {
     });
     // (1b) domain goals: Implemented(ty: Tr<ty>) / WellFormed / different variants, against clauses
     {
-        let few: Vec<usize> = (0..tys.len()).step_by(if thorough { 3 } else { 7 }).collect();
+        // a thinning of the type set that hits every constructor family (13 is coprime to the
+        // family sizes); the loop below is quartic in its length
+        let few: Vec<usize> = (0..tys.len()).step_by(if thorough { 5 } else { 13 }).collect();
         let mk = |tr: TraitId<ChalkIr>, s: usize, a: usize| -> DomainGoal<ChalkIr> {
             DomainGoal::Holds(WhereClause::Implemented(TraitRef {
                 trait_id: tr,
@@ -383,7 +422,7 @@ pub fn run_c18(rep: &Report) -> i32 {
         states,
         tr,
         nt,
-        "(1) every ordered pair of a set of types of depth <= 2 (3 in thorough) over ADTs (invariant and covariant), scalars, str, never, tuples of arity 0-2, slices, raw pointers, references, arrays, fn pointers, bound variables, inference variables and placeholders through could_match, plus clause-vs-goal pairs of trait references; (2) every impl header of the reduced C01 corpus against every atomic goal through Program::impls_for_trait; (3) every (program, goal, solver) solved with and without the pre-filter (database wrapper returning all impls of the trait); non-trivial = pairs the filter rejects (each checked to be non-unifiable by REF)",
+        "(1) every ordered pair of a set of types of depth <= 2 (3 in thorough) over ADTs (invariant and covariant), scalars, str, never, tuples of arity 0-2, slices, raw pointers, references, arrays, fn pointers (safe/unsafe/C/variadic), fn definitions, closures, foreign types, applied associated types and opaque types (two ids each), bound variables, inference variables and placeholders through could_match, plus clause-vs-goal pairs of trait references; (2) every impl header of the reduced C01 corpus against every atomic goal through Program::impls_for_trait; (3) every (program, goal, solver) solved with and without the pre-filter (database wrapper returning all impls of the trait); non-trivial = pairs the filter rejects (each checked to be non-unifiable by REF)",
         true,
         &["REF = Robinson unification with the unknowns of the two sides kept apart; lifetimes and consts unify with anything"],
     )
